@@ -124,6 +124,12 @@ pub fn c19_case(text: &str) -> CaseOut {
                         "C19/rejected-acyclic/loop-ingress-order".into(),
                         format!("partition_graph rejects a graph whose non-delayed + reference + access-order dependencies are acyclic; the cycle exists only after adding the partitioner's loop-ingress ordering constraints (flow leaves a loop and re-enters the same loop).\ndiagnostic: {message}\n{}", flat_dump()),
                     ));
+                } else if deps.cyclic_with_ingress() && deps.reenters_own_loop_with(flat, true) {
+                    with_ingress = true;
+                    out.viols.push((
+                        "C19/rejected-acyclic/loop-ingress-order-via-other-loop".into(),
+                        format!("partition_graph rejects a graph whose same-tick dependencies are acyclic; the cycle exists only after adding the loop-ingress ordering constraints, and a loop is re-entered from a node that depends on its own output only when another loop is treated as one unit (L1 -> root -> L2 -[defer_tick inside L2]-> root -> L1).\ndiagnostic: {message}\n{}", flat_dump()),
+                    ));
                 } else {
                     with_ingress = deps.cyclic_with_ingress();
                     out.viols.push((
